@@ -32,7 +32,11 @@ char *vp_strdup(const char *s) {
 	return p;
 }
 _Bool copy_of(const char *res, const char *src) {
-	for (unsigned k = 0; k < 5; k++) if (k < g_dups && g_dup_res[k] == res) return g_dup_src[k] == src;
+	for (unsigned k = 0; k < 8; k++) if (k < g_dups && g_dup_res[k] == res) return g_dup_src[k] == src;
+	return 0;
+}
+_Bool copy_of_unknown(const char *res) {
+	for (unsigned k = 0; k < 8; k++) if (k < g_dups && g_dup_res[k] == res) { const char *u = g_dup_src[k]; return u[0] == 'u' && u[1] == 'n' && u[2] == 'k' && u[6] == 'n' && u[7] == 0; }
 	return 0;
 }
 size_t g_w; unsigned g_mcs; const void *g_mc_src[4]; size_t g_mc_n[4]; void *g_mc_dst[4];
@@ -102,5 +106,57 @@ void vp_harness(void) {
 		for (unsigned k = 0; k < 4; k++) if (k < q.length) __CPROVER_assert(copy_of(q.segments[k], g_id[0]) || copy_of(q.segments[k], g_id[1]), "C17.position.every_entry_is_an_initialised_copy_of_a_segment_id");
 	} else __CPROVER_assert(q.segments == NULL, "C17.position.no_list_when_not_on_track");
 	bidib_free_train_position_query(q);
+#elif defined(VP_H_ACC_BOARD) || defined(VP_H_ACC_DCC) || defined(VP_H_PERIPHERALS) || defined(VP_H_REVERSERS)
+#if defined(VP_H_ACC_BOARD)
+#define T t_bidib_board_accessory_state
+#define CALL() bidib_get_state_accessories_board((GArray *)&va)
+#define SCALARS(r, s) ((r).data.state_value == (s).data.state_value && (r).data.execution_state == (s).data.execution_state && (r).data.wait_details == (s).data.wait_details)
+#elif defined(VP_H_ACC_DCC)
+#define T t_bidib_dcc_accessory_state
+#define CALL() bidib_get_state_accessories_dcc((GArray *)&va)
+#define SCALARS(r, s) ((r).data.state_value == (s).data.state_value && (r).data.coil_on == (s).data.coil_on && (r).data.output_controls_timing == (s).data.output_controls_timing && (r).data.ack == (s).data.ack && (r).data.time_unit == (s).data.time_unit && (r).data.switch_time == (s).data.switch_time)
+#elif defined(VP_H_PERIPHERALS)
+#define T t_bidib_peripheral_state
+#define CALL() (bidib_track_state.peripherals = (GArray *)&va, bidib_get_state_peripherals())
+#define SCALARS(r, s) ((r).data.state_value == (s).data.state_value && (r).data.time_unit == (s).data.time_unit && (r).data.wait == (s).data.wait)
+#else
+#define T t_bidib_reverser_state
+#define CALL() (bidib_track_state.reversers = (GArray *)&va, bidib_get_state_reversers())
+#define SCALARS(r, s) ((r).data.state_value == (s).data.state_value)
+#endif
+	static T src[N]; static vp_garray va; va.data = (gchar *)src; va.len = N; va.elt_size = sizeof src[0]; static char sid[N][2];
+	for (int k = 0; k < N; k++) { src[k].id = g_id[k]; _Bool has; sid[k][0] = 'z'; sid[k][1] = 0; src[k].data.state_id = has ? sid[k] : NULL; }
+#if defined(VP_H_ACC_DCC)
+	for (int k = 0; k < N; k++) { B01(src[k].data.coil_on); B01(src[k].data.output_controls_timing); }
+#endif
+	T *r = CALL();
+	VP_COVER(src[0].data.state_id != NULL && src[1].data.state_id == NULL);
+	for (int k = 0; k < N; k++) {
+		__CPROVER_assert(copy_of(r[k].id, g_id[k]), "C17.snapshot.id_is_an_independent_copy");
+		__CPROVER_assert(src[k].data.state_id != NULL ? copy_of(r[k].data.state_id, sid[k]) : copy_of_unknown(r[k].data.state_id), "C17.snapshot.state_id_is_an_independent_copy_of_the_tracked_aspect_or_of_unknown");
+		__CPROVER_assert(SCALARS(r[k], src[k]), "C17.snapshot.every_scalar_field_equals_the_tracked_state");
+		__CPROVER_assert(src[k].id == g_id[k] && src[k].data.state_id == (src[k].data.state_id ? sid[k] : NULL), "C17.snapshot.tracked_state_not_modified");
+	}
+#elif defined(VP_H_TRACK_OUTPUTS)
+	static t_bidib_track_output_state src[N]; static vp_garray va; va.data = (gchar *)src; va.len = N; va.elt_size = sizeof src[0];
+	for (int k = 0; k < N; k++) src[k].id = g_id[k];
+	bidib_track_state.track_outputs = (GArray *)&va;
+	t_bidib_track_output_state *r = bidib_get_state_track_outputs();
+	VP_COVER(1);
+	for (int k = 0; k < N; k++) __CPROVER_assert(copy_of(r[k].id, g_id[k]) && r[k].cs_state == src[k].cs_state, "C17.snapshot.track_outputs.id_copied_and_state_equal");
+#elif defined(VP_H_TRAINS)
+	static t_bidib_train_state_intern src[N]; static vp_garray va; va.data = (gchar *)src; va.len = N; va.elt_size = sizeof src[0];
+	static t_bidib_train_peripheral_state ps[N][2]; static vp_garray vp[N]; static char pid[N][2][2];
+	for (int k = 0; k < N; k++) { guint n; __CPROVER_assume(n <= 2); vp[k].data = (gchar *)ps[k]; vp[k].len = n; vp[k].elt_size = sizeof ps[0][0]; src[k].peripherals = (GArray *)&vp[k]; src[k].id = &g_gs[k];
+		for (int j = 0; j < 2; j++) { pid[k][j][0] = 'p'; pid[k][j][1] = 0; ps[k][j].id = pid[k][j]; } B01(src[k].on_track); B01(src[k].set_is_forwards); }
+	bidib_track_state.trains = (GArray *)&va;
+	t_bidib_train_state *r = bidib_get_state_trains();
+	VP_COVER(vp[0].len == 2 && vp[1].len == 0);
+	for (int k = 0; k < N; k++) {
+		__CPROVER_assert(copy_of(r[k].id, g_id[k]), "C17.snapshot.trains.id_is_an_independent_copy");
+		__CPROVER_assert(r[k].data.on_track == src[k].on_track && r[k].data.orientation == src[k].orientation && r[k].data.set_speed_step == src[k].set_speed_step && r[k].data.set_is_forwards == src[k].set_is_forwards &&
+		                 r[k].data.ack == src[k].ack && r[k].data.detected_kmh_speed == (int)src[k].detected_kmh_speed && r[k].data.peripheral_cnt == vp[k].len, "C17.snapshot.trains.every_scalar_field_equals_the_tracked_state");
+		for (unsigned j = 0; j < 2; j++) if (j < vp[k].len) __CPROVER_assert(copy_of(r[k].data.peripherals[j].id, pid[k][j]) && r[k].data.peripherals[j].state == ps[k][j].state, "C17.snapshot.trains.every_function_copied_with_its_state");
+	}
 #endif
 }
